@@ -83,6 +83,10 @@ def gen_plan(rng, tier, run):
             kind = rng.choice(["plid", "plid", "bmc", "id", "id", "src", "src"] + (["srcx"] if all_src else []))
             op = {"op": kind, "order": order, "flags": [x for x in ("-P", "-r") if rng.random() < 0.15],
                   "hex": rng.random() < 0.12}
+            if kind != "srcx" and rng.random() < 0.15:
+                # a look-up names its PELs by id / code: class and severity options given with it must not hide a match
+                op["flags"] += rng.choice([["-O", "-S", "Predictive"], ["-H"], ["-N", "-O"], ["-s"], ["-O", "-S", "Informational", "Critical"],
+                                           ["-t", "-O"], ["-S", "Recovered"]])
             tgt = rng.choice(pool)["recipe"] if pool else rng.choice(allf)["recipe"]
             how = rng.choice(["hit", "hit", "hit", "near", "absent"])
             op["how"] = how
